@@ -1,0 +1,63 @@
+// SPDX-FileCopyrightText: 2026 The Pion community <https://pion.ly>
+// SPDX-License-Identifier: MIT
+
+//go:build verif && verif_c25 && !js
+
+package webrtc
+
+import (
+	"github.com/pion/ice/v4"
+)
+
+// VerifICECandidateFromICE exposes newICECandidateFromICE (property C25).
+func VerifICECandidateFromICE(c ice.Candidate) (ICECandidate, error) {
+	return newICECandidateFromICE(c, "", 0)
+}
+
+// VerifExtensions returns the unexported extensions string of an ICECandidate.
+func (c ICECandidate) VerifExtensions() string { return c.extensions }
+
+type verifExtRecorder struct {
+	ice.Candidate
+	calls []ice.CandidateExtension
+}
+
+func (r *verifExtRecorder) AddExtension(e ice.CandidateExtension) error {
+	r.calls = append(r.calls, e)
+
+	return r.Candidate.AddExtension(e)
+}
+
+// VerifExtensionsRoundTrip runs setExtensions and then exportExtensions on a
+// host candidate: it returns the joined string, the AddExtension calls that
+// exportExtensions made, and what the candidate reports afterwards.
+func VerifExtensionsRoundTrip(exts []ice.CandidateExtension) (
+	joined string, calls, final []ice.CandidateExtension, err error,
+) {
+	c := ICECandidate{}
+	c.setExtensions(exts)
+	host, herr := ice.NewCandidateHost(&ice.CandidateHostConfig{
+		Network: "udp", Address: "192.0.2.1", Port: 9, Component: 1, Foundation: "f", Priority: 1,
+	})
+	if herr != nil {
+		return "", nil, nil, herr
+	}
+	rec := &verifExtRecorder{Candidate: host}
+	err = c.exportExtensions(rec)
+
+	return c.extensions, rec.calls, host.Extensions(), err
+}
+
+// VerifRemoteICECandidates returns the remote candidates the ICE agent holds.
+func (pc *PeerConnection) VerifRemoteICECandidates() ([]ICECandidate, error) {
+	agent := pc.iceTransport.gatherer.getAgent()
+	if agent == nil {
+		return nil, nil
+	}
+	cands, err := agent.GetRemoteCandidates()
+	if err != nil {
+		return nil, err
+	}
+
+	return newICECandidatesFromICE(cands, "", 0)
+}
